@@ -49,14 +49,14 @@ def run(tier, seed, res):
     _collect(res, wr)
     # (2) rapidcheck
     n = 12
-    per = 2500 if quick else 200000
+    per = 2000 if quick else 200000
     jobs = [dict(cmd=[rcbin, "rc"], env=dict(ASAN, RC_PARAMS="seed=%d max_success=%d max_size=200" % (seed * 131 + i, per)), tag="rc")
             for i in range(n)]
     wr = core.run_workers(PROP, jobs)
     res.absorb(wr, "rc")
     _collect(res, wr)
     # (3) libFuzzer, same interpreter + oracle
-    runs = 25000 if quick else 3000000
+    runs = 15000 if quick else 3000000
     nf = 8 if quick else 16
     jobs = []
     rd = core.run_dir(PROP)
